@@ -167,6 +167,11 @@ func classifyStderr(s string) (class, summary, frame string) {
 		if strings.HasPrefix(l, "panic: ") || strings.HasPrefix(l, "fatal error: ") || strings.HasPrefix(l, "runtime: ") && strings.Contains(l, "out of memory") {
 			low := strings.ToLower(l)
 			if strings.Contains(low, "out of memory") || strings.Contains(low, "cannot allocate memory") {
+				// Memory ran out while a goroutine stack was being grown: that is a runaway
+				// recursion (stack exhaustion), not a huge allocation.
+				if strings.Contains(s, "runtime.stackalloc") || strings.Contains(s, "runtime.copystack") || strings.Contains(s, "runtime.newstack") {
+					return "crash", "fatal error: stack overflow (out of memory while growing a goroutine stack)", ""
+				}
 				return "oom", l, ""
 			}
 			sum := reNum.ReplaceAllString(reHex.ReplaceAllString(l, "X"), "N")
@@ -296,7 +301,7 @@ func parentMain(id string, args []string) int {
 					if ok || cr == nil {
 						return
 					}
-					if cr.class == "watchdog" || attempt >= 40 || cr.caseIdx <= resume {
+					if cr.class == "watchdog" || attempt >= 400 || cr.caseIdx <= resume {
 						return
 					}
 					resume = cr.caseIdx
@@ -360,9 +365,11 @@ func parentMain(id string, args []string) int {
 			}
 		}
 	}
-	ooms, watchdogs := 0, 0
+	ooms, watchdogs, restarts := 0, 0, 0
 	for _, cr := range crashes {
 		switch cr.class {
+		case "restart":
+			restarts++
 		case "oom":
 			ooms++
 		case "watchdog":
@@ -385,7 +392,8 @@ func parentMain(id string, args []string) int {
 		}
 	}
 	counters["child_oom_excluded"] += int64(ooms)
-	counters["child_crashes"] += int64(len(crashes) - ooms - watchdogs)
+	counters["child_crashes"] += int64(len(crashes) - ooms - watchdogs - restarts)
+	counters["child_restarts_requested"] += int64(restarts)
 
 	known := loadFindings()
 	knownSeen := map[string]bool{}
@@ -565,8 +573,15 @@ func runChild(exe string, e *Engine, v Variant, tier string, seed int64, shard, 
 		cr.class, cr.summary = "watchdog", "wall-clock watchdog"
 		return cr, res, false
 	}
+	if ee, ok := werr.(*exec.ExitError); ok && ee.ExitCode() == 97 {
+		cr.class, cr.summary = "restart", "child asked for a fresh process"
+		return cr, res, false
+	}
 	var frame string
 	cr.class, cr.summary, frame = classifyStderr(cr.stderr)
+	if strings.Contains(cr.summary, "stack overflow") {
+		frame = "" // the frame on top when the stack ran out is arbitrary: keep the key stable
+	}
 	if frame != "" {
 		cr.summary += " @ " + frame
 	}
